@@ -73,7 +73,7 @@ theorem log_gamma_branch (thr zero one kc : Nat) (k : ℝ) (hk1 : 2 ≤ k) (hk2 
     (hz : Finite zero ∧ toReal zero = 0) (h1c : Finite one ∧ toReal one = 1) (hkc : Finite kc ∧ toReal kc = k)
     (x : Nat) (hx : Finite x) (h0 : 0 ≤ toReal x) (h1 : toReal x ≤ 1) :
     Finite (if le x thr then zero else add one (div (B.libm.log10 x) kc)) ∧
-    |toReal (if le x thr then zero else add one (div (B.libm.log10 x) kc)) - logSpec k (toReal x)| < 25 / 10 ^ 5 := by
+    |toReal (if le x thr then zero else add one (div (B.libm.log10 x) kc)) - logSpec k (toReal x)| ≤ 2 / 10 ^ 5 := by
   have hu' : u = 1 / 16777216 := u_val
   have he' : eta ≤ 1 / 10 ^ 40 := eta_le
   have hud := ud_le
@@ -143,12 +143,12 @@ theorem log_gamma_branch (thr zero one kc : Nat) (k : ℝ) (hk1 : 2 ≤ k) (hk2 
       rw [sub_zero]
       have := abs_sub_abs_le_abs_sub (toReal (add one (div (B.libm.log10 x) kc))) (1 + l / k)
       have h3 : |toReal (add one (div (B.libm.log10 x) kc))| ≤ 2 / 10 ^ 5 := by linarith
-      refine lt_of_le_of_lt h3 ?_; norm_num
+      exact h3
     · rw [if_neg hs]
-      refine lt_of_le_of_lt hcore ?_; norm_num
+      exact le_trans hcore (by norm_num)
 
 
-theorem log100_to_gamma : CurveWithinF (log100_oetf B) (logSpec 2) := by
+theorem log100_to_gamma_b : CurveWithinB (log100_oetf B) (logSpec 2) (2 / 10 ^ 5) := by
   obtain ⟨a1, a2, a3, b1, b2, c1, c2, d1, d2, _⟩ := cert_logg
   intro x hxw hx h0 h1
   obtain ⟨ft, vt⟩ := Exp2.rat_val _ a1
@@ -161,7 +161,7 @@ theorem log100_to_gamma : CurveWithinF (log100_oetf B) (logSpec 2) := by
     ⟨(val_of _ _ c1 c2).1, by rw [(val_of _ _ c1 c2).2]; norm_num⟩ ⟨(val_of _ _ d1 d2).1, by rw [(val_of _ _ d1 d2).2]; norm_num⟩ x hx h0 h1
   exact ⟨_, rfl, hf, he⟩
 
-theorem log316_to_gamma : CurveWithinF (log316_oetf B) (logSpec (5 / 2)) := by
+theorem log316_to_gamma_b : CurveWithinB (log316_oetf B) (logSpec (5 / 2)) (2 / 10 ^ 5) := by
   obtain ⟨_, _, _, _, _, _, _, _, _, a1, a2, a3, a4, b1, b2, c1, c2, d1, d2⟩ := cert_logg
   intro x hxw hx h0 h1
   obtain ⟨ft, vt⟩ := Exp2.rat_val _ a1
@@ -180,6 +180,16 @@ theorem log316_to_gamma : CurveWithinF (log316_oetf B) (logSpec (5 / 2)) := by
     ft (by nlinarith) hcs (by linarith) (zero_of _ b1 b2)
     ⟨(val_of _ _ c1 c2).1, by rw [(val_of _ _ c1 c2).2]; norm_num⟩ ⟨(val_of _ _ d1 d2).1, by rw [(val_of _ _ d1 d2).2]; norm_num⟩ x hx h0 h1
   exact ⟨_, rfl, hf, he⟩
+
+theorem log100_to_gamma : CurveWithinF (log100_oetf B) (logSpec 2) := by
+  intro x hxw hx h0 h1
+  obtain ⟨r, h2, h3, h4⟩ := log100_to_gamma_b B hL x hxw hx h0 h1
+  exact ⟨r, h2, h3, lt_of_le_of_lt h4 (by norm_num)⟩
+
+theorem log316_to_gamma : CurveWithinF (log316_oetf B) (logSpec (5 / 2)) := by
+  intro x hxw hx h0 h1
+  obtain ⟨r, h2, h3, h4⟩ := log316_to_gamma_b B hL x hxw hx h0 h1
+  exact ⟨r, h2, h3, lt_of_le_of_lt h4 (by norm_num)⟩
 
 /-- **C03, Log100 / Log316 linear -> gamma through the dispatch** (under the libm hypothesis) -/
 theorem log_to_gamma_curves :
